@@ -791,3 +791,77 @@ pub fn run(ctx: &Ctx) -> Evidence {
     }
     ev
 }
+
+// ---------------------------------------------------------------------------------------------
+// fuzz entry (thorough tier): bytes drive the script generator through proptest's pass-through RNG
+
+/// Returns the finding (signature, detail), if any.  With `abort` the process aborts on a finding
+/// (libFuzzer records the input).
+pub fn fuzz_one(data: &[u8], abort: bool) -> Option<(String, String)> {
+    static ONCE: std::sync::Once = std::sync::Once::new();
+    ONCE.call_once(|| {
+        install_panic_hook();
+        prepare_scratch();
+    });
+    // hand-written decoder: one or two bytes per key, terminal size from two bytes per event
+    // (proptest's pass-through RNG does not terminate once its data is exhausted)
+    let canned = [
+        "FC = 12", "set fd=0x1f", "FF = 0b101", "FC = 256", "FE = 0x1FF", "set IRG = 7", "set TEMP = 2.5", "set I1 = 0.5", "set I2 = 4",
+        "set J1", "unset J1", "set UIO2", "unset UIO3", "show memory", "show register", "next", "next 9", "load good.asm", "load good2.asm",
+        "load bad.asm", "load missing.asm", "load dir", "load nonutf8.asm", "load é.asm", "foo", "  ", "set J1 = true", "quit",
+    ];
+    let cmd: Vec<char> = CMD_ALPHA.chars().collect();
+    let mut p = 0usize;
+    let mut next = |p: &mut usize| -> u8 {
+        let v = data.get(*p).copied().unwrap_or(0);
+        *p += 1;
+        v
+    };
+    let mut events = vec![];
+    while p < data.len() && events.len() < 48 {
+        let k = next(&mut p);
+        let ev = match k % 24 {
+            0..=5 => Ev::Char(cmd[(k as usize / 24 + next(&mut p) as usize) % cmd.len()]),
+            6 => Ev::Char(UNI_ALPHA[(k as usize / 24) % UNI_ALPHA.len()]),
+            7 => Ev::Enter,
+            8 => Ev::Tab,
+            9 => Ev::BackTab,
+            10 => Ev::Left,
+            11 => Ev::Right,
+            12 => Ev::Up,
+            13 => Ev::Down,
+            14 => Ev::Home,
+            15 => Ev::End,
+            16 => Ev::Backspace,
+            17 => Ev::Delete,
+            18 => Ev::Ctrl(['a', 'w', 'e', 'r', 'l', 'x'][(k as usize / 24) % 6]),
+            19 => Ev::Other(k / 24),
+            20 => Ev::AltChar(cmd[(k as usize / 24) % cmd.len()]),
+            _ => Ev::Type(canned[(k as usize / 24 + next(&mut p) as usize) % canned.len()].to_string()),
+        };
+        let s = next(&mut p);
+        let (w, h) = match s % 4 {
+            0 => (76, 28),
+            1 => (75 + (s / 4) as u16 % 3, 27 + (s / 16) as u16 % 3),
+            2 => (76 + (s / 4) as u16 * 2, 28 + (s / 4) as u16),
+            _ => (1 + (s / 4) as u16, 1 + (s / 8) as u16),
+        };
+        events.push((ev, w, h));
+    }
+    let sc = Script { events };
+    match run_script(&sc).0 {
+        Verdict::Fail(sig, detail) => {
+            static KNOWN: std::sync::OnceLock<Vec<String>> = std::sync::OnceLock::new();
+            let known = KNOWN.get_or_init(|| load_known("C17").into_iter().map(|k| k.signature).collect());
+            if known.contains(&sig) || sig.starts_with("HARNESS:") {
+                return None;
+            }
+            if abort {
+                eprintln!("FUZZ-FINDING property=C17 sig={} {}", sig, detail.chars().take(600).collect::<String>());
+                std::process::abort();
+            }
+            Some((sig, detail))
+        }
+        Verdict::Pass => None,
+    }
+}
